@@ -166,7 +166,7 @@ class SMChart(BaseChart):
         if property.upper() not in SM_CHART_PROPERTIES:
             raise KeyError
         else:
-            return super().__setitem__(property, value)
+            return super().__setitem__(property.upper(), value)
 
     def __delitem__(self, property: str) -> None:
         """Raises NotImplementedError."""
